@@ -156,11 +156,8 @@ theorem graphView_eq {s : State} (h : WF s) (g : GName) : s.graphView g = s.cont
   have hq' := tag_view_present hq
   exact ⟨hq', (contextsCall_wf h).1 q hq'⟩
 
-theorem resolveCtx_cases {s : State} (h : WF s) (c : CtxArg) :
-    s.resolveCtx c = s ∨ s.resolveCtx c = s.contextsCall.1 := by
-  cases c with
-  | ident g => exact Or.inl rfl
-  | view g => exact Or.inr (graphView_eq h g)
+theorem resolveCtx_eq (s : State) (c : CtxArg) : s.resolveCtx c = s := by
+  cases c <;> rfl
 
 /-! ### the JSON-LD loop never touches `self` -/
 
@@ -358,45 +355,27 @@ theorem run_state_nobind {s : State} (h : WF s) (r : ReadOp) (hb : r.mayBind = f
   | len => exact Or.inl rfl
   | slice pat => exact Or.inl rfl
   | contains3 pat => exact Or.inl rfl
-  | triplesCtx pat g =>
-    simp only [State.run, State.readTriplesCtx]
-    split
-    · exact Or.inl rfl
-    · exact Or.inr (graphView_eq h g)
-  | triples4 pat c =>
-    simp only [State.run, State.readTriples4]
-    rcases resolveCtx_cases h c with h1 | h1
-    · rw [h1]; exact Or.inr (graphView_eq h _)
-    · rw [h1, graphView_eq (contextsCall_wf h), contextsCall_idem_fst]; exact Or.inr rfl
-  | contains4 pat c =>
-    simp only [State.run, State.readContains4]
-    rcases resolveCtx_cases h c with h1 | h1
-    · rw [h1]
-      split
-      · exact Or.inl rfl
-      · exact Or.inr (graphView_eq h _)
-    · rw [h1]
-      split
-      · exact Or.inr rfl
-      · rw [graphView_eq (contextsCall_wf h), contextsCall_idem_fst]; exact Or.inr rfl
-  | quads4 pat c =>
-    simp only [State.run, State.readQuads4]
-    exact resolveCtx_cases h c
+  | triplesCtx pat g => exact Or.inl rfl
+  | triples4 pat c => exact Or.inl (by simp only [State.run, State.readTriples4, resolveCtx_eq])
+  | contains4 pat c => exact Or.inl (by simp only [State.run, State.readContains4, resolveCtx_eq])
+  | quads4 pat c => exact Or.inl (resolveCtx_eq s c)
   | query q =>
     simp only [State.run, State.query]
     split
     · split
       · exact Or.inr rfl
       · exact Or.inl rfl
-    · split
-      · exact Or.inl rfl
-      · split <;> exact Or.inl rfl
+    · split <;> exact Or.inl rfl
   | path p => exact Or.inl rfl
   | cbd n b => exact Or.inl rfl
   | isomorphic g1 g2 d => exact Or.inl rfl
   | canonical g c => exact Or.inl rfl
   | diff g1 g2 c => exact Or.inl rfl
   | skolemize sk => exact Or.inl rfl
+  | aggLen gs => exact Or.inl rfl
+  | aggTriples gs pat => exact Or.inl rfl
+  | aggContains gs pat => exact Or.inl rfl
+  | aggQuads gs pat => exact Or.inl rfl
 
 /-- every read leaves the state at `s` or at `s.contextsCall.1`, up to added prefix bindings -/
 theorem run_state {s : State} (h : WF s) (r : ReadOp) :
@@ -409,7 +388,10 @@ theorem run_state {s : State} (h : WF s) (r : ReadOp) :
     | serializeTurtle nsOf =>
       exact Or.inl ((preprocessTriples_nsExt nsOf _ s).trans (preprocessTriples_nsExt nsOf _ _))
     | serializeLongTurtle nsOf c f =>
-      exact Or.inl ((preprocessTriples_nsExt nsOf _ s).trans (preprocessTriples_nsExt nsOf _ _))
+      simp only [State.run, State.serializeLongTurtle]
+      split
+      · exact Or.inl (NsExt.refl s)
+      · exact Or.inl ((preprocessTriples_nsExt nsOf _ s).trans (preprocessTriples_nsExt nsOf _ _))
     | serializeXml nsOf =>
       exact Or.inl ((bindPredicates_nsExt nsOf _ s).trans (bindPredicates_nsExt nsOf _ _))
     | serializePrettyXml nsOf ty d =>
@@ -533,59 +515,37 @@ theorem jsonldOut_setNs (s1 : State) (k : List Nat) (cs : List GName) :
   rw [hs.scratch, hs.named, hs.quads]
   rfl
 
-theorem readTriples4_eq {s : State} (h : WF s) (pat : Pat) (c : CtxArg) :
-    s.readTriples4 pat c
-      = (s.contextsCall.1, .triples (s.contextsCall.1.matching pat (some c.name))) := by
-  have key : (s.resolveCtx c).graphView c.name = s.contextsCall.1 := by
-    rcases resolveCtx_cases h c with h1 | h1
-    · rw [h1]; exact graphView_eq h _
-    · rw [h1, graphView_eq (contextsCall_wf h), contextsCall_idem_fst]
-  unfold State.readTriples4
-  simp only [key]
+theorem contextAware_cc (s : State) : s.contextsCall.1.contextAware = s.contextAware := by
+  unfold State.contextAware
+  rw [contextsCall_isDataset, contextsCall_union]
 
-theorem resolveCtx_quads {s : State} (h : WF s) (c : CtxArg) : (s.resolveCtx c).quads = s.quads := by
-  rcases resolveCtx_cases h c with h1 | h1 <;> rw [h1]
-  exact contextsCall_quads s
+theorem queryDefault_cc (s : State) (b : Bool) : s.contextsCall.1.queryDefault b = s.queryDefault b := by
+  unfold State.queryDefault
+  rw [visible_cc, contextsCall_quads, contextsCall_dname]
 
-theorem resolveCtx_matching {s : State} (h : WF s) (c : CtxArg) (pat : Pat) (o : Option GName) :
-    (s.resolveCtx c).matching pat o = s.matching pat o := by
-  rcases resolveCtx_cases h c with h1 | h1 <;> rw [h1]
-  exact matching_cc s pat o
+theorem anyEmpty_congr {a b : State} (h : a.quads = b.quads) : ∀ gs, anyEmpty a gs = anyEmpty b gs
+  | [] => rfl
+  | g :: gs => by unfold anyEmpty; rw [h, anyEmpty_congr h gs]
 
-theorem readContains4_out {s : State} (h : WF s) (pat : Pat) (c : CtxArg) :
-    (s.readContains4 pat c).2
-      = if (triplesOf s.quads c.name).isEmpty then .bool !(s.matching pat none).isEmpty
-        else .bool !(s.matching pat (some c.name)).isEmpty := by
-  have key : (s.resolveCtx c).graphView c.name = s.contextsCall.1 := by
-    rcases resolveCtx_cases h c with h1 | h1
-    · rw [h1]; exact graphView_eq h _
-    · rw [h1, graphView_eq (contextsCall_wf h), contextsCall_idem_fst]
-  unfold State.readContains4
-  simp only [key, resolveCtx_quads h, resolveCtx_matching h, matching_cc]
-  split <;> rfl
+theorem constBlocks_congr {a b : State} (h : a.quads = b.quads) (known : List GName) :
+    ∀ gs, constBlocks a known gs = constBlocks b known gs
+  | [] => rfl
+  | g :: gs => by unfold constBlocks; rw [h, constBlocks_congr h known gs]
 
-theorem readTriplesCtx_out {s : State} (h : WF s) (pat : Pat) (g : GName) :
-    (s.readTriplesCtx pat g).2
-      = if (triplesOf s.quads g).isEmpty then .triples (s.matching pat none)
-        else .triples (s.matching pat (some g)) := by
-  unfold State.readTriplesCtx
-  simp only [graphView_eq h, matching_cc]
-  split <;> rfl
-
-theorem readQuads4_out {s : State} (h : WF s) (pat : Pat) (c : CtxArg) :
-    (s.readQuads4 pat c).2
-      = .quads (tagWith c.name ((triplesOf s.quads c.name).filter pat.matches)) := by
-  unfold State.readQuads4
-  simp only [resolveCtx_quads h]
+theorem namedBlocks_congr {a b : State} (h : a.quads = b.quads) (hd : a.dname = b.dname) (cs : List GName) :
+    namedBlocks a cs = namedBlocks b cs := by
+  unfold namedBlocks; rw [h, hd]
 
 /-- the answer of a read is the same whether or not the default graph has been registered -/
 theorem run_out_cc {s : State} (h : WF s) (r : ReadOp) :
     (s.contextsCall.1.run r).2 = (s.run r).2 := by
   have h' := contextsCall_wf h
   cases r with
-  | serializeFlat => simp only [State.run, State.serializeFlat, visible_cc]
+  | serializeFlat => simp only [State.run, State.serializeFlat, visible_cc, contextsCall_isDataset, contextsCall_quads]
   | serializeTurtle nsOf => simp only [State.run, State.serializeTurtle, visible_cc]
-  | serializeLongTurtle nsOf c f => simp only [State.run, State.serializeLongTurtle, visible_cc]
+  | serializeLongTurtle nsOf c f =>
+    simp only [State.run, State.serializeLongTurtle, visible_cc, contextsCall_isDataset]
+    split <;> rfl
   | serializeXml nsOf => simp only [State.run, State.serializeXml, visible_cc]
   | serializePrettyXml nsOf ty d => simp only [State.run, State.serializePrettyXml, visible_cc]
   | serializeCtxs => simp only [State.run, State.serializeCtxs, contextsCall_idem_fst, contextsCall_idem_snd]
@@ -594,26 +554,22 @@ theorem run_out_cc {s : State} (h : WF s) (r : ReadOp) :
   | serializeTrig nsOf => simp only [State.run, State.serializeTrig, contextsCall_idem_fst, contextsCall_idem_snd]
   | serializeJsonld => simp only [State.run, State.serializeJsonld, contextsCall_idem_fst, contextsCall_idem_snd]
   | graphs => simp only [State.run, contextsCall_idem_snd]
-  | iter => simp only [State.run, visible_cc]
-  | len => simp only [State.run, visible_cc]
+  | iter => simp only [State.run, visible_cc, contextsCall_isDataset, contextsCall_quads]
+  | len => simp only [State.run, contextAware_cc, contextsCall_quads, contextsCall_dname]
   | slice pat => simp only [State.run, matching_cc]
   | contains3 pat => simp only [State.run, matching_cc]
-  | triplesCtx pat g =>
-    simp only [State.run, readTriplesCtx_out h, readTriplesCtx_out h', contextsCall_quads, matching_cc]
-  | triples4 pat c =>
-    simp only [State.run, readTriples4_eq h, readTriples4_eq h', contextsCall_idem_fst]
-  | contains4 pat c =>
-    simp only [State.run, readContains4_out h, readContains4_out h', contextsCall_quads, matching_cc]
-  | quads4 pat c =>
-    simp only [State.run, readQuads4_out h, readQuads4_out h', contextsCall_quads]
+  | triplesCtx pat g => simp only [State.run, State.readTriplesCtx, matching_cc]
+  | triples4 pat c => simp only [State.run, State.readTriples4, matching_cc]
+  | contains4 pat c => simp only [State.run, State.readContains4, matching_cc]
+  | quads4 pat c => simp only [State.run, State.readQuads4, contextsCall_quads]
   | query q =>
-    simp only [State.run, State.query, contextsCall_idem_fst, contextsCall_idem_snd, visible_cc,
-      contextsCall_quads, contextsCall_ns, qInit_congr (contextsCall_quads s)]
+    have ha : anyEmpty s.contextsCall.1 q.graphConsts = anyEmpty s q.graphConsts :=
+      anyEmpty_congr (contextsCall_quads s) _
+    simp only [State.run, State.query, contextsCall_idem_fst, contextsCall_idem_snd, queryDefault_cc,
+      contextsCall_ns, contextsCall_quads, qInit_congr (contextsCall_quads s), ha]
     split
     · split <;> rfl
-    · split
-      · rfl
-      · split <;> rfl
+    · split <;> rfl
   | path p => simp only [State.run, visible_cc]
   | cbd n b => simp only [State.run, visible_cc]
   | isomorphic g1 g2 d => simp only [State.run, contextsCall_quads]
@@ -621,6 +577,10 @@ theorem run_out_cc {s : State} (h : WF s) (r : ReadOp) :
   | diff g1 g2 c => simp only [State.run, contextsCall_quads]
   | skolemize sk => simp only [State.run, visible_cc]
   | qname nsOf t => rfl
+  | aggLen gs => simp only [State.run, contextsCall_quads]
+  | aggTriples gs pat => simp only [State.run, contextsCall_quads]
+  | aggContains gs pat => simp only [State.run, contextsCall_quads]
+  | aggQuads gs pat => simp only [State.run, contextsCall_quads]
 
 theorem wf_setNs {s : State} (h : WF s) (k : List Nat) : WF (s.setNs k) := h
 
@@ -638,7 +598,10 @@ theorem run_out_setNs {s : State} (h : WF s) (k : List Nat) (r : ReadOp) :
   cases r with
   | serializeFlat => rfl
   | serializeTurtle nsOf => rfl
-  | serializeLongTurtle nsOf c f => rfl
+  | serializeLongTurtle nsOf c f =>
+    have hd : (s.setNs k).isDataset = s.isDataset := rfl
+    simp only [State.run, State.serializeLongTurtle, hd, hv]
+    split <;> rfl
   | serializeXml nsOf => rfl
   | serializePrettyXml nsOf ty d => rfl
   | serializeCtxs => simp only [State.run, State.serializeCtxs, hc1, hc2, hq']
@@ -654,24 +617,24 @@ theorem run_out_setNs {s : State} (h : WF s) (k : List Nat) (r : ReadOp) :
   | len => rfl
   | slice pat => rfl
   | contains3 pat => rfl
-  | triplesCtx pat g =>
-    simp only [State.run, readTriplesCtx_out h, readTriplesCtx_out h', hq, hm]
-  | triples4 pat c =>
-    simp only [State.run, readTriples4_eq h, readTriples4_eq h', hc1]
-    rfl
-  | contains4 pat c =>
-    simp only [State.run, readContains4_out h, readContains4_out h', hq, hm]
-  | quads4 pat c =>
-    simp only [State.run, readQuads4_out h, readQuads4_out h', hq]
+  | triplesCtx pat g => rfl
+  | triples4 pat c => rfl
+  | contains4 pat c => rfl
+  | quads4 pat c => rfl
   | query q =>
-    simp only [State.run, State.query, hc1, hc2, hv, hv', hq, hq', qInit_congr hq]
+    have hqd : ∀ b, (s.setNs k).queryDefault b = s.queryDefault b := fun _ => rfl
+    have hqd' : ∀ b, (s.contextsCall.1.setNs k).queryDefault b = s.contextsCall.1.queryDefault b := fun _ => rfl
+    have ha : anyEmpty (s.setNs k) q.graphConsts = anyEmpty s q.graphConsts := anyEmpty_congr (a := s.setNs k) (b := s) rfl _
+    have hcb : ∀ kn gs, constBlocks (s.contextsCall.1.setNs k) kn gs = constBlocks s.contextsCall.1 kn gs :=
+      fun kn gs => constBlocks_congr (a := s.contextsCall.1.setNs k) (b := s.contextsCall.1) rfl kn gs
+    have hnb : ∀ cs, namedBlocks (s.contextsCall.1.setNs k) cs = namedBlocks s.contextsCall.1 cs :=
+      fun cs => namedBlocks_congr (a := s.contextsCall.1.setNs k) (b := s.contextsCall.1) rfl rfl cs
+    simp only [State.run, State.query, hc1, hc2, hqd, hqd', hq, ha, hcb, hnb, qInit_congr hq]
     split
     · split
       · exact answer_ns_irrel q _ _ _ _
       · exact answer_ns_irrel q _ _ _ _
-    · split
-      · rfl
-      · split <;> rfl
+    · split <;> rfl
   | path p => rfl
   | cbd n b => rfl
   | isomorphic g1 g2 d => rfl
@@ -679,6 +642,10 @@ theorem run_out_setNs {s : State} (h : WF s) (k : List Nat) (r : ReadOp) :
   | diff g1 g2 c => rfl
   | skolemize sk => rfl
   | qname nsOf t => rfl
+  | aggLen gs => rfl
+  | aggTriples gs pat => rfl
+  | aggContains gs pat => rfl
+  | aggQuads gs pat => rfl
 
 theorem run_out_nsExt {a b : State} (hw : WF a) (h : NsExt a b) (r : ReadOp) :
     (b.run r).2 = (a.run r).2 := by
@@ -703,6 +670,7 @@ theorem runAll_wf : ∀ (rs : List ReadOp) {s : State}, WF s → WF (s.runAll rs
 def ReadOp.mayBindNs (s : State) (n : Nat) : ReadOp → Prop
   | .serializeTurtle nsOf => ∃ t ∈ s.visible, nsOf t.2.1 = some n
   | .serializeLongTurtle nsOf canon canonf =>
+    (canon && s.isDataset) = false ∧
     ∃ t ∈ (if canon then unionInto [] (canonf s.visible) else s.visible), nsOf t.2.1 = some n
   | .serializeXml nsOf => ∃ t ∈ s.visible, nsOf t.2.1 = some n
   | .serializePrettyXml nsOf ty _ =>
